@@ -1,1 +1,234 @@
 //! Verification doors: udp (cfg(trusttunnel_verif) only)
+//!
+//! `udp_pipe::DuplexPipe` wired to the REAL direct multiplexer
+//! (`udp_forwarder::make_multiplexer`) exactly as `Tunnel::on_datagram_mux_request` does, with
+//! harness-provided downstream halves (mirror traits of `datagram_pipe::Source<Output =
+//! downstream::UdpDatagram>` / `datagram_pipe::Sink<Input = forwarder::UdpDatagram>`).
+
+use crate::forwarder::Forwarder;
+use crate::settings::{
+    ForwardProtocolSettings, Http1Settings, ListenProtocolSettings, Settings,
+    Socks5ForwarderSettings,
+};
+use crate::socks5_forwarder::Socks5Forwarder;
+use crate::{core, datagram_pipe, downstream, forwarder, log_utils, udp_forwarder, udp_pipe};
+use async_trait::async_trait;
+use bytes::Bytes;
+use std::io;
+use std::net::{Ipv4Addr, SocketAddr};
+use std::sync::Arc;
+use std::time::Duration;
+
+/// A datagram with its label, in either direction (`source`/`destination` as the respective
+/// crate-private meta carries them)
+#[derive(Debug, Clone)]
+pub struct VDatagram {
+    pub source: SocketAddr,
+    pub destination: SocketAddr,
+    pub payload: Bytes,
+}
+
+/// Public mirror of the downstream datagram source (client -> endpoint)
+#[async_trait]
+pub trait VDatagramSource: Send {
+    async fn read(&mut self) -> io::Result<VDatagram>;
+}
+
+/// Public mirror of the downstream datagram sink (endpoint -> client).
+/// `Ok(true)` = sent, `Ok(false)` = dropped (flow control)
+#[async_trait]
+pub trait VDatagramSink: Send {
+    async fn write(&mut self, datagram: VDatagram) -> io::Result<bool>;
+}
+
+struct SourceIn(Box<dyn VDatagramSource>);
+struct SinkIn(Box<dyn VDatagramSink>);
+
+#[async_trait]
+impl datagram_pipe::Source for SourceIn {
+    type Output = downstream::UdpDatagram;
+
+    fn id(&self) -> log_utils::IdChain<u64> {
+        log_utils::IdChain::empty()
+    }
+
+    async fn read(&mut self) -> io::Result<downstream::UdpDatagram> {
+        self.0.read().await.map(|d| downstream::UdpDatagram {
+            meta: downstream::UdpDatagramMeta {
+                source: d.source,
+                destination: d.destination,
+                app_name: None,
+            },
+            payload: d.payload,
+        })
+    }
+}
+
+#[async_trait]
+impl datagram_pipe::Sink for SinkIn {
+    type Input = forwarder::UdpDatagram;
+
+    async fn write(&mut self, d: forwarder::UdpDatagram) -> io::Result<datagram_pipe::SendStatus> {
+        self.0
+            .write(VDatagram {
+                source: d.meta.source,
+                destination: d.meta.destination,
+                payload: d.payload,
+            })
+            .await
+            .map(|sent| {
+                if sent {
+                    datagram_pipe::SendStatus::Sent
+                } else {
+                    datagram_pipe::SendStatus::Dropped
+                }
+            })
+    }
+}
+
+/// The UDP pipe of one multiplexer stream over a real forwarder
+pub struct UdpMux {
+    context: Arc<core::Context>,
+    pipe: Box<dyn datagram_pipe::DuplexPipe>,
+}
+
+/// Which real implementation of the forwarder side is wired in
+pub enum Upstream {
+    /// `udp_forwarder::make_multiplexer` (direct forwarding)
+    Direct,
+    /// `Socks5Forwarder::make_udp_datagram_multiplexer` through the SOCKS5 server at this address
+    Socks5(SocketAddr),
+}
+
+impl UdpMux {
+    /// `udp_connections_timeout` is the idle timeout of a flow; `metrics(is_outgoing, bytes)` is
+    /// the `update_metrics` callback of the pipe
+    pub fn new<F>(
+        upstream: Upstream,
+        source: Box<dyn VDatagramSource>,
+        sink: Box<dyn VDatagramSink>,
+        udp_connections_timeout: Duration,
+        metrics: F,
+    ) -> io::Result<Self>
+    where
+        F: Fn(bool, usize) + Send + Sync + 'static,
+    {
+        let builder = Settings::builder()
+            .listen_address((Ipv4Addr::LOCALHOST, 1))?
+            .listen_protocols(ListenProtocolSettings {
+                http1: Some(Http1Settings::builder().build()),
+                ..Default::default()
+            })
+            .udp_connections_timeout(udp_connections_timeout);
+        let builder = match &upstream {
+            Upstream::Direct => builder,
+            Upstream::Socks5(a) => builder.forwarder_settings(ForwardProtocolSettings::Socks5(
+                Socks5ForwarderSettings::builder()
+                    .server_address(*a)?
+                    .build()
+                    .map_err(|e| io::Error::new(io::ErrorKind::Other, format!("{:?}", e)))?,
+            )),
+        };
+        let settings: Settings = builder
+            .build()
+            .map_err(|e| io::Error::new(io::ErrorKind::Other, format!("{:?}", e)))?;
+        let context = core::Context::verif_with_settings(settings)?;
+        let (fwd_shared, fwd_source, fwd_sink) = match upstream {
+            Upstream::Direct => {
+                udp_forwarder::make_multiplexer(context.clone(), log_utils::IdChain::empty())?
+            }
+            Upstream::Socks5(_) => Socks5Forwarder::new(context.clone())
+                .make_udp_datagram_multiplexer(
+                    log_utils::IdChain::empty(),
+                    forwarder::UdpMultiplexerMeta {
+                        client_address: Ipv4Addr::new(198, 51, 100, 77).into(),
+                        auth: None,
+                        tls_domain: String::new(),
+                        user_agent: None,
+                    },
+                )?,
+        };
+        let pipe = udp_pipe::DuplexPipe::new(
+            (Box::new(SourceIn(source)), Box::new(SinkIn(sink))),
+            (fwd_shared, fwd_source, fwd_sink),
+            move |d, n| metrics(d == crate::pipe::SimplexDirection::Outgoing, n),
+            context.settings.udp_connections_timeout,
+        );
+        Ok(Self {
+            context,
+            pipe: Box::new(pipe),
+        })
+    }
+
+    /// `datagram_pipe::DuplexPipe::exchange` of the UDP pipe
+    pub async fn exchange(&mut self) -> io::Result<()> {
+        self.pipe.exchange().await
+    }
+
+    /// A reader of the `outbound_udp_sockets` gauge of this multiplexer's context (usable while
+    /// `exchange` borrows the multiplexer)
+    pub fn gauge(&self) -> Gauge {
+        Gauge(self.context.clone())
+    }
+}
+
+#[derive(Clone)]
+pub struct Gauge(Arc<core::Context>);
+
+impl Gauge {
+    /// Current value of the `outbound_udp_sockets` gauge
+    pub fn outbound_udp_sockets(&self) -> i64 {
+        super::metrics::outbound_udp_sockets(&self.0.metrics)
+    }
+}
+
+/// Hook helper for calls whose failure leaves through `?`: `ok()` reports success, dropping the
+/// value without `ok()` reports the failure (or the cancellation) of the call at `stage`
+pub(crate) struct Outcome {
+    ev: &'static str,
+    source: SocketAddr,
+    destination: SocketAddr,
+    stage: &'static str,
+    armed: bool,
+}
+
+impl Outcome {
+    pub(crate) fn new(ev: &'static str, source: SocketAddr, destination: SocketAddr) -> Self {
+        Self {
+            ev,
+            source,
+            destination,
+            stage: "lookup",
+            armed: true,
+        }
+    }
+
+    pub(crate) fn stage(&mut self, stage: &'static str) {
+        self.stage = stage;
+    }
+
+    pub(crate) fn ok(&mut self) {
+        self.armed = false;
+        super::emit(
+            self.ev,
+            format_args!(
+                "\"s\":\"{}\",\"d\":\"{}\",\"ok\":true",
+                self.source, self.destination
+            ),
+        );
+    }
+}
+
+impl Drop for Outcome {
+    fn drop(&mut self) {
+        if self.armed {
+            super::emit(
+                self.ev,
+                format_args!(
+                    "\"s\":\"{}\",\"d\":\"{}\",\"ok\":false,\"stage\":\"{}\"",
+                    self.source, self.destination, self.stage
+                ),
+            );
+        }
+    }
+}
